@@ -201,16 +201,18 @@ PROPS["C05"] = dict(
 
 PROPS["C12"] = dict(
     level="proof",
-    verus=["c12_request"],
+    verus=["c12_request", "c12_userinfo"],
     labels=["C12.", "C03.request."],
     kani=[KaniSet("src/request.rs", "c03_request.rs", [
         Harness("c03_request_classify", "C03.request.classify", "C", "every (type alias, scheme, party) of the 24-entry alias table x 9 schemes; string loops bounded by the longest literal (unwind 20, unwinding assertions on)"),
     ])],
-    trusted=["url_parser: URL scan, userinfo/port/IPv6 handling, IDN/punycode, registrable-domain lookup (addr/PSL) - NOT under contract",
+    trusted=["url_parser: scheme scan, serialisation, port/IPv6 handling, IDN/punycode, registrable-domain lookup (addr/PSL) - NOT under contract; under contract (unit c12_userinfo): where the userinfo ends (Parser::parse_userinfo) and where the host ends (the scanning loop of Parser::parse_host, R7 block lift)",
+             "the `Input` character iterator (a wrapper around str::Chars) is a trusted abstraction: next() yields the characters in order, clone() forks the position, next_utf8() also skips tab/newline; str::chars() materialised (R5); what is written to the serialisation buffer is not part of the contract",
+             "inputs of fewer than 2^31 characters (parse_userinfo counts in i32) and fewer than usize::MAX/4 characters (byte counter of parse_host)",
              "memchr::memchr = first occurrence (shim)"],
     assumptions=[],
     level_text="Verus proves the plumbing of Request::new and Request::preparsed: hostname = host of the parsed URL, third-party iff the registrable domains differ or the source is absent/unparseable, "
-               "scheme handed to classification = text before the first ':'; Kani proves the classification (websocket forcing, supported schemes) over the alias/scheme tables",
+               "scheme handed to classification = text before the first ':'; that the URL parser takes as host the text right after the LAST '@' before the first '/', '?' or '#' (or '\\' for special schemes) and ends it at the first ':' outside brackets, '/', '?', '#' (or '\\'); Kani proves the classification (websocket forcing, supported schemes) over the alias/scheme tables",
     level_note="narrow: host extraction, IDN and public-suffix lookup are trusted (url_parser); panic-freedom of the URL scanner is not decided",
     design_ref="DESIGN.md section 4, C12",
 )
